@@ -360,7 +360,7 @@ static void run(int from, int to) {
     } else if (pfx(op, "fault:")) {
       const char *k = field(op, 0); rline(i, 0);
       if (pfx(k, "segv")) { *(volatile int *)8 = 1; }
-      else if (pfx(k, "fpe")) { volatile int z = 0; sink = (u64)(1 / z); }
+      else if (pfx(k, "fpe")) { __asm__ volatile("xor %%ecx,%%ecx\n\tmov $1,%%eax\n\tcltd\n\tidiv %%ecx" ::: "eax", "ecx", "edx", "cc"); }
       else if (pfx(k, "ill")) { __asm__ volatile("ud2"); }
       else if (pfx(k, "trap")) { __asm__ volatile("int3"); }
       else if (pfx(k, "bus")) {
